@@ -1,12 +1,12 @@
 package main
 
 import (
-	"math/rand"
-	"strings"
-	"github.com/tdakkota/docker-logql/internal/logql/lexer"
 	"context"
 	"fmt"
+	"github.com/tdakkota/docker-logql/internal/logql/lexer"
+	"math/rand"
 	"os"
+	"strings"
 
 	"github.com/tdakkota/docker-logql/internal/iterators"
 	"github.com/tdakkota/docker-logql/internal/logql"
